@@ -122,3 +122,36 @@ mod vx_kani_names {
         assert!(compare_names("\u{e9}", "\u{10000}x") == Ordering::Less);        // 1 unit vs 3 units
     }
 }
+
+// ---- K9 (thorough tier; complete over its domain: every secs: u64, nanos < 10^9, both directions; ~6 min):
+// Timestamp::from_system_time against the property's arithmetic (C17) on the REAL function - this harness does not
+// depend on the shape of the function body, so it also decides rewrites that the Verus side can only call undecided.
+#[cfg(kani)]
+mod vx_kani_time {
+    use crate::internal::Timestamp;
+    use std::time::{Duration, UNIX_EPOCH};
+
+    #[kani::proof]
+    #[kani::unwind(3)]
+    fn k_timestamp_from_system_time() {
+        let secs: u64 = kani::any();
+        let nanos: u32 = kani::any();
+        kani::assume(nanos < 1_000_000_000);
+        let after: bool = kani::any();
+        let d = Duration::new(secs, nanos);
+        let st = if after { UNIX_EPOCH.checked_add(d) } else { UNIX_EPOCH.checked_sub(d) };
+        if let Some(st) = st {
+            let got = Timestamp::from_system_time(st).value();
+            // the statement's arithmetic with checked steps (a u128 reference never left bit-blasting in CBMC)
+            let ticks = match secs.checked_mul(10_000_000) {
+                Some(x) => match x.checked_add((nanos / 100) as u64) { Some(y) => y, None => u64::MAX },
+                None => u64::MAX,
+            };
+            let epoch: u64 = 116444736000000000;
+            let want = if after {
+                match epoch.checked_add(ticks) { Some(v) => v, None => u64::MAX }
+            } else if ticks > epoch { 0 } else { epoch - ticks };
+            assert!(got == want);
+        }
+    }
+}
